@@ -177,6 +177,7 @@ type State struct {
 	bdom       map[*Term]byteSet
 	twinLeaves []twinLeaf
 	Approx     bool // an over-approximating stub was used on this path
+	NumOverflow bool // a json.Number leaf of this document may spell an out-of-range number
 	steps      int
 }
 
@@ -273,6 +274,25 @@ func (s *State) assume(c *Term) {
 	s.noteByteConstraint(c)
 }
 
+// pcRelates reports whether the path condition holds a constraint that mentions
+// byte variable v together with something the per-byte domain cannot see
+// (another variable, or an operator outside the domain evaluator).
+func (s *State) pcRelates(v *Term) bool {
+	for _, c := range s.pc {
+		if _, single := singleByteVar(c, s.W.sbvCache); single {
+			continue
+		}
+		var vs []*Term
+		collectVars(c, map[*Term]bool{}, &vs)
+		for _, x := range vs {
+			if x == v {
+				return true
+			}
+		}
+	}
+	return false
+}
+
 // decide resolves a symbolic Boolean, forking when both outcomes are feasible.
 func (s *State) decide(c *Term, label string) bool {
 	if c.IsConst() {
@@ -291,9 +311,31 @@ func (s *State) decide(c *Term, label string) bool {
 			w.DomainRechecks++
 			rt, _ := w.Solver.Check(s.pc, []*Term{c}, nil)
 			rf, _ := w.Solver.Check(s.pc, []*Term{w.Pool.Not(c)}, nil)
-			if (rt == Sat) == t.empty() || (rf == Sat) == f.empty() || rt == Unknown || rf == Unknown {
+			if rt == Unknown || rf == Unknown {
+				s.abort("solver unknown while re-checking a byte-domain verdict on %s", c.str)
+			}
+			// The per-byte domain ignores constraints that relate several bytes, so
+			// it may call a side feasible that the full path condition excludes
+			// (the path would be dropped at its final sat check anyway): the
+			// solver's verdict is adopted. The converse - the domain excludes a side
+			// the solver can satisfy - would lose behaviour and is a disagreement.
+			if (rt == Sat && t.empty()) || (rf == Sat && f.empty()) {
 				w.DomainDisagreements++
 				s.abort("byte-domain verdict disagrees with the solver on %s", c.str)
+			}
+			if (rt == Unsat && !t.empty()) || (rf == Unsat && !f.empty()) {
+				if !s.pcRelates(v) {
+					// no multi-byte constraint can explain it: the domain evaluation itself is wrong
+					w.DomainDisagreements++
+					s.abort("byte-domain verdict disagrees with the solver on %s", c.str)
+				}
+				w.DomainRefinements++
+				if rt == Unsat {
+					t = byteSet{}
+				}
+				if rf == Unsat {
+					f = byteSet{}
+				}
 			}
 		}
 		switch {
